@@ -164,7 +164,10 @@ def emit_item(spec, repo, out, stats, vspec_path, cache):
         cache[fpath] = (src, rsx.code_mask(src))
     src, mask = cache[fpath]
     lo, hi, depth = 0, len(src), 0
-    if spec.impl:
+    if spec.impl and spec.impl.startswith("trait "):
+        blk = rsx.find_item(src, mask, "trait", spec.impl.split()[1])
+        lo, hi, depth = blk.body_open + 1, blk.end - 1, 0
+    elif spec.impl:
         blk = rsx.find_impl(src, mask, spec.impl, nth=spec.nth)
         lo, hi, depth = blk.body_open + 1, blk.end - 1, 0
     if spec.kind == "impl":
